@@ -82,10 +82,66 @@ def make_pre_ext(sets):
     return pre
 
 
+STATIC = {}
+STATIC_MTIME = 1_600_000_000
+STATIC_DATA = bytes((i * 7 + 3) % 251 for i in range(40))
+
+
+def static_root():
+    """a directory with one file of known content and date (removed at exit)"""
+    import atexit
+    import os
+    import shutil
+    import tempfile
+    if 'root' not in STATIC:
+        root = tempfile.mkdtemp(prefix='c09_', dir=os.environ.get('VERIF_TMP'))
+        for name in ('data.bin', 'note.txt'):
+            p = os.path.join(root, name)
+            with open(p, 'wb') as f:
+                f.write(STATIC_DATA)
+            os.utime(p, (STATIC_MTIME, STATIC_MTIME))
+        STATIC['root'] = root
+        atexit.register(shutil.rmtree, root, True)
+    return STATIC['root']
+
+
+class _FrozenTime:
+    @staticmethod
+    def time():
+        return 1_700_000_000.0
+
+
+def make_pre_helper(hp):
+    """the handler answers with the object a framework helper builds for this request:
+    static_file (plain / Range / If-Modified-Since / download / missing), redirect, abort"""
+    def pre(app, kw=None):
+        import importlib
+        import time as real_time
+        from ombott import HTTPResponse
+        ss = importlib.import_module('ombott.static_stream')
+        om = importlib.import_module('ombott.ombott')
+        if hp['helper'] == 'static':
+            ss.time = _FrozenTime            # the Date header of a 304 is the clock: frozen for the comparison
+            try:
+                return ('obj', 'ret', ss.static_file(hp['name'], hp['root'], download=hp.get('download', False)))
+            finally:
+                ss.time = real_time
+        try:
+            if hp['helper'] == 'redirect':
+                om.redirect(hp['location'], hp.get('code'))
+            else:
+                om.abort(hp['code'], hp['text'])
+        except HTTPResponse as r:
+            return ('obj', 'rr', r)
+    return pre
+
+
 PRE = {'body': _pre_body, 'json': _pre_json, 'reqerr': _pre_reqerr, 'upload': _pre_upload, 'wild': _pre_wild}
 
 
 def pre_of(h):
+    if h.get('helper'):
+        return make_pre_helper(h['helper'])
     if h.get('ext') is not None:
         return make_pre_ext(h['ext'])
     return PRE.get(h['pre'])
@@ -93,7 +149,12 @@ def pre_of(h):
 
 SHARED = {'E': ('r', True, dict(status=403, headers=[('X-S', 's')], cookies=[]), ('t', 'denied')),
           'E2': ('r', True, dict(status=409, headers=[], cookies=[]), ('f', 'none')),
+          'E3': ('r', True, dict(status=422, headers=[], cookies=[]), ('t', 'it\'s <b> & "q" \\ é')),
           'R': ('r', False, dict(status=200, headers=[('X-S', 'r')], cookies=[('sc', '1')]), ('t', 'shared body'))}
+
+# an application's own errors_map (class name -> status, body), text with characters rendering transforms
+CUSTOM_ERRORS = {'RequestError': (400, 'bad <request> & "co"'), 'BodySizeError': ('413 Too big, isn\'t it', 'it\'s too <big>'),
+                 'BodyParsingError': (422, 'can\'t parse <body> & "x" \\')}
 
 
 RAISE_SINGLETONS = [True]
@@ -116,28 +177,31 @@ def multipart_body(boundary, parts):
 # '+' = raised while a ValueError with a live traceback is being handled, which the shared error's
 # __context__ then keeps until the next raise)
 BODY_KINDS = {
-    'chunked-garbage': ('body', b'zz\r\nxx', {'HTTP_TRANSFER_ENCODING': 'chunked'}, 'BodyParsingError+'),
+    'chunked-garbage': ('body', b'zz\r\nxx', {'HTTP_TRANSFER_ENCODING': 'chunked'}, 'BodyParsingError'),
     'chunked-truncated': ('body', b'5\r\nab', {'HTTP_TRANSFER_ENCODING': 'chunked'}, 'BodyParsingError'),
     'oversize': ('body', b'x' * 1200, {'CONTENT_LENGTH': '1200'}, 'BodySizeError'),
     'oversize-chunked': ('body', b'4b1\r\n' + b'y' * 0x4b1 + b'\r\n0\r\n\r\n', {'HTTP_TRANSFER_ENCODING': 'chunked'},
                          'BodySizeError'),
-    'bad-json': ('json', b'{x', {'CONTENT_LENGTH': '2', 'CONTENT_TYPE': 'application/json'}, 'BodyParsingError+'),
+    'bad-json': ('json', b'{x', {'CONTENT_LENGTH': '2', 'CONTENT_TYPE': 'application/json'}, 'BodyParsingError'),
     'request-error': ('reqerr', b'', {}, 'RequestError'),
     'good-body': ('body', b'hello', {'CONTENT_LENGTH': '5'}, None),
 }
 
-KINDS = ['ok-text', 'ok-cookie', 'ok-zoo', 'nf', 'na', 'badpath', 'crash', 'raise-resp', 'ret-error', 'head',
+HELPER_KINDS = ['static', 'static', 'static-range', 'static-ims', 'static-download', 'static-head', 'static-missing',
+                'redirect', 'abort']
+
+KINDS = ['custom-status', 'ok-text', 'ok-cookie', 'ok-zoo', 'nf', 'na', 'badpath', 'crash', 'raise-resp', 'ret-error', 'head',
          'iterable', 'cookie-then-body-error', 'upload', 'upload', 'app-error', 'app-resp', 'login', 'whoami', 'whoami',
          'wild'] + list(BODY_KINDS)
 
 
-def gen_hreq(g, rng, rid, kind=None, spec=None):
+def gen_hreq(g, rng, rid, kind=None, spec=None, force=None):
     """-> dict(req=zoo request, kind, body, extra, pre, bodyerr)"""
     kind = kind or rng.choice(KINDS)
     req = dict(id=rid, method='GET', fw=rng.random() < .3, path_ok=True,
                tail=rng.choice(['', '', 'a', 'u%d' % rid, '<i>&"\'', 'é€']), query=rng.choice(['', 'a=1', 'r=%d' % rid]),
                route=None)
-    body, extra, pre, bodyerr, ext = b'', {}, None, None, None
+    body, extra, pre, bodyerr, ext, helper = b'', {}, None, None, None, None
     ck = lambda: ('ck', rng.choice(zoo.CK_NAMES), rng.choice(zoo.CK_VALS))
     sh = lambda: ('sh', rng.choice(['X-A', 'X-B', 'ETag']), rng.choice(['v', '1', 'r%d' % rid]))
     if kind == 'ok-text':
@@ -189,12 +253,48 @@ def gen_hreq(g, rng, rid, kind=None, spec=None):
         req['route'] = ('h', [ck()] if rng.random() < .3 else [], ('ret', ('t', 'upload-description')))
         req['method'] = 'POST'
     elif kind in ('app-error', 'app-resp'):
-        key = rng.choice(['E', 'E2']) if kind == 'app-error' else 'R'
+        key = (force or {}).get('key') or (rng.choice(['E', 'E2', 'E3', 'E3']) if kind == 'app-error' else 'R')
         # raised or returned (d1483c6: `_handle` drops the traceback of a raised response it catches)
         how = rng.choice(['rr', 'ret']) if kind == 'app-error' and RAISE_SINGLETONS[0] else 'ret'
         req['route'] = ('h', [ck()] if rng.random() < .3 else [], (how, ('sh', key)))
         if rng.random() < .3:
             req['method'] = 'HEAD'
+    elif kind == 'custom-status':
+        # an unlisted code with a reason phrase in one request, the bare code in another
+        code = (force or {}).get('code') or rng.choice([799, 298, 599])
+        how = (force or {}).get('how', rng.randrange(5))
+        if how == 0:
+            req['route'] = ('h', [('sl', '%d Quota exceeded' % code)], ('ret', ('t', g.text())))
+        elif how == 1:
+            req['route'] = ('h', [('st', code)], ('ret', ('t', g.text())))
+        elif how == 2:
+            req['route'] = ('h', [], (rng.choice(['ret', 'rr']), ('r', True, dict(status=code, headers=[], cookies=[]), ('t', 'plain %d' % rid))))
+        elif how == 3:
+            req['route'] = ('h', [], ('ret', ('r', True, dict(status='%d Over quota' % code, headers=[], cookies=[]), ('t', 'phrase %d' % rid))))
+        else:
+            req['route'] = ('h', [], ('ret', ('r', False, dict(status=code, headers=[], cookies=[]), ('t', 'resp %d' % rid))))
+    elif kind in HELPER_KINDS:
+        hp = dict(helper='static', root=static_root(), name='data.bin')
+        if kind == 'static-range':
+            extra = {'HTTP_RANGE': rng.choice(['bytes=2-5', 'bytes=-7', 'bytes=30-', 'bytes=90-99'])}
+        elif kind == 'static-ims':
+            import email.utils
+            extra = {'HTTP_IF_MODIFIED_SINCE': email.utils.formatdate(STATIC_MTIME + rng.choice([0, 3600]), usegmt=True)}
+        elif kind == 'static-download':
+            hp['download'] = rng.choice([True, 'report-%d.bin' % rid])
+        elif kind == 'static-head':
+            req['method'] = 'HEAD'
+        elif kind == 'static-missing':
+            hp['name'] = 'nope-%d.bin' % rid
+        elif kind == 'redirect':
+            hp = dict(helper='redirect', location=rng.choice(['/next/%d' % rid, 'rel?x=%d' % rid, 'http://other/%d' % rid]),
+                      code=rng.choice([None, 301, 307]))
+        elif kind == 'abort':
+            hp = dict(helper='abort', code=rng.choice([401, 403, 410, 799]), text='no <entry> for "%d" & it\'s final' % rid)
+        if kind == 'static' and rng.random() < .3:
+            hp['name'] = 'note.txt'
+        req['route'] = ('h', [ck(), sh()] if rng.random() < .4 else [], ('ret', ('t', 'helper-object')))
+        helper = hp
     elif kind in ('login', 'whoami'):
         ext = []
         if kind == 'login':
@@ -218,9 +318,10 @@ def gen_hreq(g, rng, rid, kind=None, spec=None):
         pre, body, extra, bodyerr = BODY_KINDS[kind]
         req['route'] = ('h', [], ('ret', ('t', 'body-ok')))
         req['method'] = 'POST'
-    if spec is not None and rng.random() < .3 and zoo.json_safe(spec, req):
+    want_json = (force or {}).get('json')
+    if spec is not None and (rng.random() < .3 if want_json is None else want_json) and zoo.json_safe(spec, req):
         req['json'] = True       # JSON error bodies (same mapped error, other representation)
-    return dict(req=req, kind=kind, body=body, extra=dict(extra), pre=pre, bodyerr=bodyerr, ext=ext)
+    return dict(req=req, kind=kind, body=body, extra=dict(extra), pre=pre, bodyerr=bodyerr, ext=ext, helper=helper)
 
 
 def class_state_snapshot():
@@ -299,6 +400,11 @@ class Server:
             from ombott import HTTPError
             config['errors_map'] = {cls: HTTPError(e._status_line, str(e.body))
                                     for cls, e in om.DefaultConfig.errors_map.items()}
+        if spec.get('errors_map'):
+            import importlib
+            from ombott import HTTPError
+            rq = importlib.import_module('ombott.request_pkg.errors')
+            config['errors_map'] = {getattr(rq, cls): HTTPError(st, body) for cls, (st, body) in spec['errors_map'].items()}
         config['catchall'] = bool(spec.get('catchall', True))
         self.app = zoo.make_app(spec, self.log)
         self.app.setup(config)
@@ -312,10 +418,10 @@ class Server:
         """-> (status, headers, body bytes, urlrepr); `keep` collects weak references"""
         o = self.serve_obs(h, keep)
         if o['escaped']:
-            return ('escaped ' + o['escaped'], [], o['data'], o['urlrepr'])
+            return ('escaped ' + o['escaped'], [], o['data'], o['urlrepr'], o['described'])
         if len(o['starts']) != 1:
-            return ('start_response x%d' % len(o['starts']), [], o['data'], o['urlrepr'])
-        return (o['starts'][0][0], o['starts'][0][1], o['data'], o['urlrepr'])
+            return ('start_response x%d' % len(o['starts']), [], o['data'], o['urlrepr'], o['described'])
+        return (o['starts'][0][0], o['starts'][0][1], o['data'], o['urlrepr'], o['described'])
 
 
 def show(resp):
@@ -325,6 +431,10 @@ def show(resp):
 
 def ser_hreq(h, urlrepr):
     req = h['req']
+    if h.get('helper'):
+        # the value of the object the framework helper built, as a pristine process reports it
+        res = h.get('model_res') or ('ret', ('t', 'unreached'))
+        req = dict(req, route=('h', req['route'][1], res))
     if h.get('said') is not None:
         # what the handler read from the request, as a pristine process reports it
         req = dict(req, route=('h', req['route'][1], ('ret', ('t', h['said']))))
@@ -335,12 +445,32 @@ def ser_hreq(h, urlrepr):
     return zoo.ser_req(req, urlrepr) + [h['bodyerr'] or '-', sg] + exts
 
 
+def ser_errors_map(spec):
+    """the application's own errors_map for the model (empty = the default one of Gen/Wsgi.lean)"""
+    m = spec.get('errors_map')
+    if not m:
+        return ['0']
+    from ombott import HTTPError
+    toks = [str(len(m))]
+    for cls, (st, body) in m.items():
+        e = HTTPError(st, body)
+        toks += [cls, str(e._status_code), hs(e._status_line), hs(body)]
+    return toks
+
+
 def fixed_app(g, rng):
     """hooks / error handlers of a history's application"""
     r = rng.random()
     if r < .4:
-        return plain_spec()
-    spec = g.app()
+        spec = plain_spec()
+    else:
+        spec = g.app()
+    if rng.random() < .3:
+        spec['default_app'] = True        # static_file / redirect work on the default application
+    if rng.random() < .2:
+        spec['errors_map'] = dict(CUSTOM_ERRORS)
+    if r < .4:
+        return spec
     spec.pop('edits', None)          # C09's application is fixed over the history
     spec.pop('catchall', None)
     spec['shared'] = dict(SHARED)
@@ -407,14 +537,45 @@ class C09(Check):
                                    'request-error', 'cookie-then-body-error'])
             elif rng.random() < .25:
                 kind = rng.choice(['ok-cookie', 'raise-resp', 'login'])
+            if spec is not None and spec.get('default_app') and rng.random() < .25:
+                kind = rng.choice(HELPER_KINDS)
             if hist and any(h['kind'] == 'login' for h in hist[-2:]) and rng.random() < .5:
                 kind = 'whoami'          # login-then-anonymous, directly or across one other request
             hist.append(gen_hreq(g, rng, i + 1, kind, spec))
+        if spec is not None and rng.random() < .45:
+            # a framework object that one request re-renders / mutates and a later request shows
+            at = rng.randrange(len(hist) + 1)
+            pat = []
+            r = rng.random()
+            if spec.get('default_app') and r < .5:
+                mid = rng.sample([k for k in HELPER_KINDS if k != 'static'], rng.choice([1, 2]))
+                pat = [('static', None)] + [(k, None) for k in mid] + [('static', None)]
+            elif r < .7:
+                k = rng.choice(['app-error', 'chunked-garbage', 'oversize', 'bad-json', 'request-error', 'abort'
+                                if spec.get('default_app') else 'app-error'])
+                j0 = rng.random() < .5
+                pat = [(k, dict(key='E3', json=(j0 if i % 2 == 0 else not j0))) for i in range(rng.choice([3, 4]))]
+            else:
+                code = rng.choice([799, 298])
+                pat = [('custom-status', dict(code=code, how=rng.choice([0, 3]))),
+                       ('custom-status', dict(code=code, how=rng.choice([1, 2, 4]), json=rng.random() < .3))]
+                if rng.random() < .5:
+                    pat.insert(1, (rng.choice(['nf', 'crash', 'ok-text']), None))
+            hist[at:at] = [gen_hreq(g, rng, 0, k, spec, force=f) for k, f in pat]
+            hist = hist[:14]
+            for i, h in enumerate(hist):
+                h['req']['id'] = i + 1
         return hist
 
-    def describe_uploads(self, hist):
+    def describe_uploads(self, hist, spec=None):
         """for requests whose handler answers with what it read (uploads): obtain that text from a
         pristine process, served on an application without hooks, for the model's line"""
+        helped = [h for h in hist if h.get('helper')]
+        if helped:
+            for h, r in zip(helped, self.reference().serve(spec, helped)):
+                if r and r[0] == 'EXC':
+                    raise core.Infra(f'{h["kind"]} reference raised {r[1]}')
+                h['model_res'] = r[4]
         ups = [h for h in hist if h['pre'] in ('upload', 'wild')]
         if not ups:
             return
@@ -451,9 +612,9 @@ class C09(Check):
         for _ in range(n):
             spec = fixed_app(g, rng)
             hist = self.gen_history(g, rng, spec)
-            self.describe_uploads(hist)
+            self.describe_uploads(hist, spec)
             outs, urls, live = zoo.watchdog(lambda: self.run_history(spec, hist, retention=True), 60)
-            toks = zoo.ser_app(spec) + [str(len(hist))]
+            toks = zoo.ser_app(spec) + ser_errors_map(spec) + [str(len(hist))]
             for h, u in zip(hist, urls):
                 toks += ser_hreq(h, u)
             ans = ';'.join(show(o) for o in outs) + f' retained={live}'
@@ -476,7 +637,7 @@ class C09(Check):
                 hist = [gen_hreq(g, rng, i + 1, kind, plain_spec()) for i in range(N)]
                 spec = plain_spec()
                 outs, urls, live = self.run_history(spec, hist, retention=True)
-                toks = zoo.ser_app(spec) + [str(N)]
+                toks = zoo.ser_app(spec) + ser_errors_map(spec) + [str(N)]
                 for h, u in zip(hist, urls):
                     toks += ser_hreq(h, u)
                 ans = ';'.join(show(o) for o in outs) + f' retained={live}'
